@@ -529,7 +529,8 @@ class Kernel(Module):
             if not isinstance(res, LazyEvaluatedKernelTensor):
                 # A full (... x N x M) result has two more dimensions than the broadcasted batch shape,
                 # which may come from the kernel's parameters rather than from the inputs
-                batch_dim = max(x1_.dim() - 2, x2_.dim() - 2, len(self.batch_shape))
+                # (with last_dim_is_batch the input dimension D is one more batch dimension of the result)
+                batch_dim = max(x1_.dim() - 2, x2_.dim() - 2, len(self.batch_shape)) + (1 if last_dim_is_batch else 0)
                 if res.dim() == batch_dim + 2 and res.shape[-2:] == torch.Size((x1_.size(-2), x2_.size(-2))):
                     res = res.diagonal(dim1=-1, dim2=-2)
             return res
